@@ -113,6 +113,18 @@ def handleFrame (st : DState) : List String → DState × String
     match unhex h with
     | none => (st, "bad-op")
     | some bs => (st, if Frame.recordStart bs then "1" else "0")
+  | ["total", minBuf, soft, h] =>
+    -- a whole connection without any flush pause: all reads, then FlushAll when the peer closes
+    match minBuf.toNat?, soft.toNat?, unhex h with
+    | some m, some so, some bs =>
+      let c : Frame.Cfg := { cap := max m (so * 3), soft := so }
+      match frameReadAll c {} bs [] with
+      | none => (st, "stuck")
+      | some (s', o) =>
+        let (_, o2) := Frame.flushAll Frame.recordStart s'
+        (st, "records " ++ ",".intercalate ((o ++ o2).map hex))
+    | _, _, _ => (st, "bad-op")
+  | "listener" :: _ => (st, "any")
   | _ => (st, "bad-op")
 
 def parseOptInt (s : String) : Option (Option Int) :=
